@@ -187,7 +187,8 @@ pub fn e2e_generic<PT, P, D>(
     enc_cons: impl Fn(&mut Line, &Constraint<DataKey<D>, P>) + Copy,
     enc_key: impl Fn(&DataKey<D>) -> String,
     enc_map: impl Fn(&mut Line, &DataBindMap<D>) + Copy,
-) where
+) -> Option<E2EResult>
+where
     D: IndexedData,
     D::IndexingScheme: Default,
     DataKey<D>: 'static,
@@ -196,6 +197,7 @@ pub fn e2e_generic<PT, P, D>(
     Constraint<DataKey<D>, P>: Eq + Clone + Hash,
 {
     l.arrow();
+    let mut result: Option<E2EResult> = None;
     let r = catch(|| {
         take_log();
         let (h, _calls) = heur.make();
@@ -239,12 +241,26 @@ pub fn e2e_generic<PT, P, D>(
             .filter(|p| p.try_to_constraint_vec().is_ok())
             .collect();
         let naive = NaiveManyMatcher::try_from_patterns(convertible.into_iter()).ok();
+        let mut res = E2EResult {
+            asks: evs.iter().filter(|e| matches!(e, VerifEvent::DetAsk(_))).count(),
+            n_states: m.n_states(),
+            dot: m.dot_string(),
+            events: sub(|l| enc_events(l, &evs)),
+            many: vec![],
+            naive: vec![],
+        };
         for h in hosts {
             let ms: Vec<_> = m.find_matches(h).collect();
             out.list(&ms, |l, pm| {
                 l.tok(pm.pattern.0);
                 enc_map(l, &pm.match_data);
             });
+            res.many.push(sub(|l| {
+                l.list(&ms, |l, pm| {
+                    l.tok(pm.pattern.0);
+                    enc_map(l, &pm.match_data);
+                });
+            }));
             let ns = naive
                 .as_ref()
                 .and_then(|n| catch(|| n.find_matches(h).collect::<Vec<_>>()).ok());
@@ -254,18 +270,53 @@ pub fn e2e_generic<PT, P, D>(
                     enc_map(l, &pm.match_data);
                 });
             });
+            res.naive.push(sub(|l| {
+                l.opt(&ns, |l, ns| {
+                    l.list(ns, |l, pm| {
+                        l.tok(pm.pattern.0);
+                        enc_map(l, &pm.match_data);
+                    });
+                });
+            }));
         }
+        result = Some(res);
         out
     });
     match r {
-        Ok(out) => println!("{} {}", l.0, out.0.trim_start()),
+        Ok(out) => {
+            if !quiet() {
+                println!("{} {}", l.0, out.0.trim_start())
+            }
+        }
         Err(t) => println!("{} P {}", l.0, t),
     }
+    result
+}
+
+/// What a caller needs from an end-to-end case to assemble cross-case records.
+pub struct E2EResult {
+    pub asks: usize,
+    pub n_states: usize,
+    pub dot: String,
+    pub events: String,
+    pub many: Vec<String>,
+    pub naive: Vec<String>,
+}
+
+thread_local! {
+    static QUIET: RefCell<bool> = const { RefCell::new(false) };
+}
+/// Suppress the E2E record itself (used for probing runs whose record is not wanted).
+pub fn set_quiet(q: bool) {
+    QUIET.with(|x| *x.borrow_mut() = q);
+}
+fn quiet() -> bool {
+    QUIET.with(|x| *x.borrow())
 }
 
 // ------------------------------------------------------------------------------ strings
 
-pub fn string_case(kind: &str, pats: &[Vec<CharVar>], heur: &Heur, hosts: &[String]) {
+pub fn string_case(kind: &str, pats: &[Vec<CharVar>], heur: &Heur, hosts: &[String]) -> Option<E2EResult> {
     let mut l = Line::new(kind);
     l.tok("S");
     l.list(pats, |l, p| enc_charvars(l, p));
@@ -288,7 +339,7 @@ pub fn string_case(kind: &str, pats: &[Vec<CharVar>], heur: &Heur, hosts: &[Stri
             k.to_string()
         },
         enc_strmap,
-    );
+    )
 }
 
 // ------------------------------------------------------------------------------ matrices
@@ -307,7 +358,7 @@ pub fn enc_matpat(l: &mut Line, p: &MatPat) {
     });
 }
 
-pub fn matrix_case(kind: &str, pats: &[MatPat], heur: &Heur, hosts: &[Vec<Vec<char>>]) {
+pub fn matrix_case(kind: &str, pats: &[MatPat], heur: &Heur, hosts: &[Vec<Vec<char>>]) -> Option<E2EResult> {
     let mut l = Line::new(kind);
     l.tok("M");
     l.list(pats, |l, p| enc_matpat(l, p));
@@ -328,7 +379,7 @@ pub fn matrix_case(kind: &str, pats: &[MatPat], heur: &Heur, hosts: &[Vec<Vec<ch
             format!("{} {}", k.0, k.1)
         },
         enc_matmap,
-    );
+    )
 }
 
 pub fn random_matpat(rng: &mut Rng, nlits: usize) -> MatPat {
@@ -504,7 +555,7 @@ pub fn table_case(
     fallback_fail: bool,
     heur: &Heur,
     hosts: &[THost<HM>],
-) {
+) -> Option<E2EResult> {
     set_req(req);
     set_strategy(strategy);
     let mut l = Line::new(kind);
@@ -530,7 +581,7 @@ pub fn table_case(
         enc_tcons,
         |k| k.to_string(),
         enc_tmap,
-    );
+    )
 }
 
 pub fn run_table(seed: u64, thorough: bool, n: usize) {
@@ -617,6 +668,7 @@ pub fn random_charvars(rng: &mut Rng, maxlen: usize, nlits: usize) -> Vec<CharVa
 }
 
 /// instantiate a pattern consistently, with one perturbed position with probability 1/2
+#[allow(dead_code)]
 fn instantiate(rng: &mut Rng, p: &[CharVar], perturb: bool) -> Vec<char> {
     let mut env: FxHashMap<char, char> = FxHashMap::default();
     let mut out: Vec<char> = p
